@@ -43,6 +43,10 @@ def same_token(ex, a, b):
                sym.seq_eq(ta, tb))
 
 
+def pm_opt_strlist():
+    return OptS(ListS(StrS(name='x'), None, 'extract'))
+
+
 def chk_body_ok(A):
     """every ArgumentToken of toks refers to 1..len(args)"""
     ex, st = A['$ex'], A['$st']
@@ -142,6 +146,16 @@ def register(T, repo):
             return
         raise Unsupported('store into dict %s at %d' % (d.tag, line))
     T.dict_store_hook = dict_store_hook
+
+    def dict_iter(ex, st, d):
+        if d.tag in ('the_macro', 'the_env'):
+            def mk(ex_, st_):
+                k = fresh_seq('str', 'key', st_.assume)
+                st_.assume(d.has(ex_, st_, k))
+                return k
+            return mk
+        return NotImplemented
+    T.dict_iter = dict_iter
 
     # defs.Expandable.__init__.<locals>.check
     CHK = 'yalafi.defs.Expandable.__init__.<locals>.check'
@@ -495,7 +509,7 @@ def register(T, repo):
                 'outer': lift_str(vals['self'].fields['latex'])}
 
     def no_flows(src):
-        return ListS(tm.DocList(src), lambda n: zint(n) == 0, 'extracted')
+        return ListS(tm.FinalList(src), lambda n: zint(n) == 0, 'extracted')
 
     c = T.add(FContract(
         PAR + 'parser_work', ghosts=pw_ghost,
@@ -508,11 +522,48 @@ def register(T, repo):
         result=lambda A: ListS(tm.TokS(lambda ex, t: tm.out_final(
             ex, t, A['src']), name='pw'), None, 'pw_result'),
         post_objs=[('parser', P_self, lambda A: ParserS(
-            A['outer'], ListS(tm.DocList(A['src']), None, 'extracted')))]))
+            A['outer'], ListS(tm.FinalList(A['src']), None, 'extracted')))]))
     lp = c.loop(0)
     lp.shapes['out'] = lambda E: tm.DocList(E['src'])
     lp.invs.append(('last-in-range', lambda E: And(
         0 <= zint(E['last']), zint(E['last']) <= zint(E['toks'].length()))))
+
+    # ------------------------------------------------------------- parse
+    def parse_ghost(ex, st, mode, vals):
+        if mode == 'proof':
+            return {'src': fresh_seq('str', 'src', st.assume),
+                    'outer': ''}
+        return {'src': lift_str(vals['latex']),
+                'outer': lift_str(vals['self'].fields['latex'])}
+
+    c = T.add(FContract(
+        PAR + 'parse', ghosts=parse_ghost,
+        # entry point: no text is being parsed yet (self.latex == '')
+        params=lambda G: {'self': ParserS(G['outer']),
+                          'latex': cm.SameS(G['src']),
+                          'define': StrS(name='define'),
+                          'extract': pm_opt_strlist()},
+        requires=[('idle', lambda A: sym.seq_eq(
+            A['self'].fields['latex'], ''))],
+        # every token of the result refers to `latex` (C01 step 7)
+        result=lambda A: ListS(tm.TokS(lambda ex, t: tm.parse_out(
+            ex, t, A['src']), name='pr'), None, 'parse_result'),
+        post_objs=[('parser', P_self, lambda A: ParserS(
+            A['outer'], ListS(tm.FinalList(A['src']), None, 'extracted')))]))
+    lp = c.loop(0)
+    lp.shapes['main'] = lambda E: ListS(tm.TokS(lambda ex, t: tm.parse_out(
+        ex, t, E['src']), name='pr'), None, 'main')
+
+    # ---------------------------------------------------- init_extractions
+    c = T.add(FContract(
+        PAR + 'init_extractions', ghosts=parser_ghost,
+        params=lambda G: {'self': ParserS(G['src']),
+                          'extracts': ListS(StrS(name='x'), None, 'extracts')},
+        post_objs=[('parser', P_self, post_parser)]))
+    c.loop(0).invs.append(('true', lambda E: True))
+    c.loop(1).invs.append(('true', lambda E: True))
+    loop_parser_shapes(c.loop(0), buf=None)
+    loop_parser_shapes(c.loop(1), buf=None)
 
     # --------------------------------------------- remove_pure_action_lines
     RPA = PAR + 'remove_pure_action_lines'
